@@ -143,13 +143,13 @@ const memGrid = 8
 func memCase(alu string, m mop, r *vh.Rng, k int) Case {
 	c := Case{Alu: alu, Fill: r.U64(), Class: "mem-grid"}
 	c.Pre = Scalars{SCC: uint8(r.Intn(2)), VCC: r.U64(), EXEC: execPats[k%len(execPats)], M0: uint32(r.U64()), PC: 1024}
-	if k >= memGrid {
+	if k >= memGridN(m) {
 		c.Class = "mem-random"
 		if r.Bool() {
 			c.Pre.EXEC = r.U64()
 		}
 	}
-	if e := c.Pre.EXEC; e&(e-1) == 0 {
+	if e := c.Pre.EXEC; e&(e-1) == 0 && m.fmt != "FLAT" {
 		c.Sparse = true // at most one active lane: probe the named VGPRs in a few lanes only
 	}
 	switch m.fmt {
@@ -158,14 +158,14 @@ func memCase(alu string, m mop, r *vh.Rng, k int) Case {
 		sdata := 2 * (1 + r.Intn(40))
 		bases := []uint64{0x10000, 0xfffffffffffffff8, 0x00000000fffffffc, 0x123456789abc, 0x7fffffffffffffff, 0x1001}
 		b := bases[k%len(bases)]
-		if k >= memGrid {
+		if k >= memGridN(m) {
 			b = r.U64()
 		}
 		setS(&c, base, uint32(b))
 		setS(&c, base+1, uint32(b>>32))
 		offs := []int{0, 4, 1, 0xffffc, 7, 0x100}
 		off := offs[(k/2)%len(offs)]
-		if k >= memGrid {
+		if k >= memGridN(m) {
 			off = r.Intn(1 << 20)
 		}
 		if k%2 == 0 {
@@ -181,41 +181,7 @@ func memCase(alu string, m mop, r *vh.Rng, k int) Case {
 		}
 		c.Kinds = []string{"smem"}
 	case "FLAT":
-		addr := 2 * (1 + r.Intn(60))
-		data := 130 + 4*r.Intn(20)
-		vdst := 8 + 4*r.Intn(20)
-		saddrs := []int{0x7f, 0, 0x7f, 6, 0x7f, 0}
-		sa := saddrs[k%len(saddrs)]
-		offs := []int{0, 4, 0x1ffc, 0xfff, 0x1000, 0}
-		off := offs[k%len(offs)]
-		strides := []uint64{4, 0, 3, 16, 1, 8}
-		stride := strides[k%len(strides)]
-		basesA := []uint64{0x20000, 0xfffffffffffffff0, 0xfffffffe, 0x100000000000, 0x30001, 0x7ff8}
-		b := basesA[k%len(basesA)]
-		if k >= memGrid {
-			b = r.U64()
-			stride = uint64(r.Intn(20))
-			sa = []int{0x7f, 0, 4 + 2*r.Intn(40)}[r.Intn(3)]
-			off = r.Intn(1 << 13)
-		}
-		if alu == "gcn3" && k != 1 && k != 3 && k != 7 {
-			off, sa = 0, 0 // gfx8 FLAT: no offset field, no SADDR field (reserved bits are zero)
-		}
-		if sa != 0x7f {
-			sb := uint64(0x4000000000) + uint64(r.Intn(1<<16))
-			if k%3 == 2 {
-				sb = 0xffffffffffffff00
-			}
-			setS(&c, sa, uint32(sb))
-			setS(&c, sa+1, uint32(sb>>32))
-		}
-		for l := 0; l < 64; l++ {
-			a := b + uint64(l)*stride
-			setV(&c, l, addr, uint32(a))
-			setV(&c, l, addr+1, uint32(a>>32))
-		}
-		c.Words = encFLAT(m.op, 2, off, addr, data, sa, vdst)
-		c.Kinds = []string{"flat"}
+		flatCase(&c, alu, m, r, k)
 	case "DS":
 		addr := 1 + r.Intn(60)
 		d0 := 100 + 4*r.Intn(10)
@@ -230,7 +196,7 @@ func memCase(alu string, m mop, r *vh.Rng, k int) Case {
 			if k == 5 && l == 63 {
 				a = 0xfffffff0 // wraps with the offset / leaves the allocation
 			}
-			if k >= memGrid {
+			if k >= memGridN(m) {
 				a = uint32(r.Intn(200))
 				if r.Intn(40) == 0 {
 					a = uint32(r.U64())
@@ -238,7 +204,7 @@ func memCase(alu string, m mop, r *vh.Rng, k int) Case {
 			}
 			setV(&c, l, addr, a)
 		}
-		if k >= memGrid {
+		if k >= memGridN(m) {
 			o0, o1 = r.Intn(12), r.Intn(12)
 		}
 		switch m.op {
@@ -252,4 +218,203 @@ func memCase(alu string, m mop, r *vh.Rng, k int) Case {
 		c.Kinds = []string{"ds"}
 	}
 	return c
+}
+
+// ---------------------------------------------------------------- FLAT / GLOBAL grid
+
+// memGridN: number of deterministic cases of a memory opcode.
+func memGridN(m mop) int {
+	if m.fmt == "FLAT" {
+		return flatNA(m.op) + 6 + 4
+	}
+	return memGrid
+}
+
+func flatNA(op int) int {
+	if op == 20 || op == 28 {
+		return 16 // both SADDR modes for every immediate
+	}
+	return 8
+}
+
+func flatWidth(op int) int {
+	switch op {
+	case 16, 17:
+		return 1
+	case 18:
+		return 2
+	case 21, 29:
+		return 8
+	case 22, 30:
+		return 12
+	case 23, 31:
+		return 16
+	}
+	return 4
+}
+
+var flatImms = []int{0, 1, 4, 0xfff, -1, -4, -8, -4096}
+
+func bitrev6(l int) int {
+	r := 0
+	for b := 0; b < 6; b++ {
+		if l&(1<<uint(b)) != 0 {
+			r |= 1 << uint(5-b)
+		}
+	}
+	return r
+}
+
+// flatCase: k < nA address-mode grid (immediate x SADDR mode, the lanes carry the VGPR-offset and base corners);
+// then 6 per-lane address patterns with full EXEC; then 4 EXEC corners; later random.
+func flatCase(c *Case, alu string, m mop, r *vh.Rng, k int) {
+	addr := 2 * (1 + r.Intn(60))
+	data := 130 + 4*r.Intn(20)
+	vdst := 8 + 4*r.Intn(20)
+	nA := flatNA(m.op)
+	w := uint64(flatWidth(m.op))
+	sa, off, seg := 0x7f, 0, 2
+	var lane [64]uint64 // VGPR value of the lane: 64-bit address (SADDR off) or 32-bit offset in the low dword
+	var sbase uint64
+	pairReg := 4 + 2*r.Intn(40)
+	switch {
+	case k < nA: // ---- address modes
+		c.Class = "mem-addr"
+		imm := flatImms[k%8]
+		pair := (k/8+k+m.op)%2 == 0
+		if nA == 16 {
+			pair = k >= 8
+		}
+		off = imm
+		mag := uint64(imm)
+		if imm < 0 {
+			mag = uint64(-imm)
+		}
+		c.Pre.EXEC = 0xffffff
+		c.Sparse = true
+		if pair {
+			sa = pairReg
+			sbase = []uint64{0x4000000000, 0xfffffff0, 0x100000000, 0xffffffffffffff00, 0x7ffffffffffff000, 0x20000, 0xffffffff00000000, 0x1fffffffc}[(k+m.op)%8]
+			for l := 0; l < 64; l++ {
+				var vo uint64
+				switch l % 6 {
+				case 0:
+					vo = 0
+				case 1:
+					vo = 4
+				case 2: // below |imm|
+					vo = mag / 2
+				case 3:
+					vo = mag
+				case 4:
+					vo = 0xfffff000 + uint64(4*l)
+				case 5:
+					vo = 0xfffffffc
+				}
+				if l >= 12 && l < 18 {
+					vo += uint64(l) // unaligned variants
+				}
+				lane[l] = vo&0xffffffff | r.U64()<<32 // the high VGPR must be ignored
+			}
+		} else {
+			bases := []uint64{0x20000, 0xfffffff8, 0x100000000, 0xffffffffffffffc, 0xfffffffffffffff8, 0x7fffffff0, 0xffffffff, 0x1000}
+			for l := 0; l < 64; l++ {
+				b := bases[(l+k)%8]
+				switch l % 3 {
+				case 1:
+					b += mag
+				case 2:
+					b += uint64(4 * l)
+				}
+				lane[l] = b
+			}
+		}
+	case k < nA+6: // ---- per-lane address patterns, EXEC full
+		c.Class = "mem-pattern"
+		pat := k - nA
+		c.Pre.EXEC = 0xffffffffffffffff
+		base := []uint64{0x40000, 0xffffff80, 0x30004, 0x7fffffffff00, 0x50001, 0x60000}[pat]
+		slot := w
+		var idx [64]uint64
+		for l := 0; l < 64; l++ {
+			switch pat {
+			case 0: // contiguous
+				idx[l] = uint64(l)
+			case 1: // reversed
+				idx[l] = uint64(63 - l)
+			case 2: // bit-reversed
+				idx[l] = uint64(bitrev6(l))
+			case 3: // strided, unaligned, overlapping for the wide accesses
+				idx[l] = uint64(l)
+				slot = 6
+			case 4: // all equal
+				idx[l] = 0
+			case 5: // ends contiguous in dword slots, middle permuted (bit reversal fixes 0 and 63)
+				idx[l] = uint64(bitrev6(l))
+				slot = 4
+			}
+		}
+		pair := (pat+m.op)%2 == 0
+		if alu == "gcn3" {
+			pair = false // gfx8 FLAT: VGPR pair only, no offset
+		} else if pair {
+			off = -8
+		} else {
+			off = 4
+			if pat%2 == 1 {
+				seg = 0 // FLAT segment: unsigned 12-bit offset, same value
+			}
+		}
+		for l := 0; l < 64; l++ {
+			a := base + idx[l]*slot
+			if pair {
+				sa, sbase = pairReg, base
+				lane[l] = (idx[l]*slot+8)&0xffffffff | r.U64()<<32
+			} else {
+				lane[l] = a - uint64(off)
+			}
+		}
+	case k < nA+10: // ---- EXEC corners on a contiguous pattern
+		c.Class = "mem-exec"
+		e := k - nA - 6
+		c.Pre.EXEC = []uint64{0, 1, 1 << 63, 0xaaaaaaaa55555555}[e]
+		c.Sparse = e < 3
+		pair := alu != "gcn3" && e%2 == 1
+		for l := 0; l < 64; l++ {
+			if pair {
+				sa, sbase, off = pairReg, 0x70000, -4
+				lane[l] = uint64(l)*w + 4
+			} else {
+				lane[l] = 0x70000 + uint64(l)*w
+			}
+		}
+	default: // ---- random
+		b := r.U64()
+		stride := uint64(r.Intn(20))
+		sa = []int{0x7f, 0, pairReg}[r.Intn(3)]
+		off = r.Intn(1<<13) - 4096
+		if alu == "gcn3" && r.Intn(3) != 0 {
+			off, sa = 0, 0
+		}
+		sbase = uint64(0x4000000000) + uint64(r.Intn(1<<16))
+		if r.Intn(3) == 0 {
+			sbase = 0xffffffffffffff00
+		}
+		for l := 0; l < 64; l++ {
+			lane[l] = b + uint64(l)*stride
+		}
+	}
+	if alu == "gcn3" && sa == 0x7f && k%2 == 0 {
+		sa = 0 // gfx8 encoding: the SADDR bits are reserved and zero (the GCN3 handler treats 0 and 0x7f alike)
+	}
+	if sa != 0x7f && sa != 0 {
+		setS(c, sa, uint32(sbase))
+		setS(c, sa+1, uint32(sbase>>32))
+	}
+	for l := 0; l < 64; l++ {
+		setV(c, l, addr, uint32(lane[l]))
+		setV(c, l, addr+1, uint32(lane[l]>>32))
+	}
+	c.Words = encFLAT(m.op, seg, off, addr, data, sa, vdst)
+	c.Kinds = []string{"flat"}
 }
